@@ -161,6 +161,8 @@ def fittedaffine(recv, fn):
 # optimum spec functions: one per kernel (receiver and letter type); cell() is a marker that lets the definitional
 # axiom fire only for the cell a proof obligation is about (proving(cell(i, j)) is dropped where a clause is assumed).
 TB = {'nw': (8, 9), 'sw': (4, 5), 'fitted': (9, 10)}
+import os
+NO_PANIC = os.environ.get('ALIGN_NO_PANIC') == '1'  # prove the traceback's 'no path' panic unreachable (slow: 7-49 s per kernel)
 def opt_name(kind, ql):
     return {'nw': 'nwOpt', 'sw': 'swOpt', 'fitted': 'fitOpt'}[kind] + ('Q' if ql else '')
 def opt_specs():
@@ -277,9 +279,10 @@ def tb_lines(kind, ql, trace, rev):
     A(trace, 'tail', f"forall k int {{aln[k]}} :: 0 <= k && k == len(aln) - 1 ==> {fp('aln[k]','a.start')} == maxI && {fp('aln[k]','b.start')} == maxJ")
     # with the table invariant, the flattened matrix and the marked current cell the traceback's "no path" panic is
     # unreachable: the linear-gap kernels never panic (no maypanic in their contracts)
-    A(trace, 'la', "forall x int, y int {old(a[x][y])} :: 0 <= x && x < let && 0 <= y && y < let ==> la[x*let+y] == old(a[x][y])")
-    if kind == 'nw':
-        A(trace, 'here', "cell(i, j)")
+    if NO_PANIC:
+        A(trace, 'la', "forall x int, y int {old(a[x][y])} :: 0 <= x && x < let && 0 <= y && y < let ==> la[x*let+y] == old(a[x][y])")
+        if kind == 'nw':
+            A(trace, 'here', "cell(i, j)")
     A(trace, 'origin', f"proving(cell(0, 0)) && {O('0','0')} == 0")
     A(rev, 'scores', f"forall k int {{aln[k]}} :: 0 <= k && k < len(aln) ==> {sc('aln[k]')}")
     # the reversal: positions below i and above j are in their final order, the middle still in traceback order
@@ -352,6 +355,8 @@ out = [opt_specs()]
 for mk, recv, kind in ((nw, 'NW', 'nw'), (sw, 'SW', 'sw'), (fitted, 'Fitted', 'fitted')):
     for ql, fn in ((False, 'alignLetters'), (True, 'alignQLetters')):
         c = mk(recv, fn)
+        if not NO_PANIC:
+            c = c.replace('//@   property C09\n', '//@   property C09\n//@   maypanic\n', 1)
         if ql:
             c = q(c)
         c = c.replace('//@   property C09\n', '//@   property C09\n//@   property C08\n') + dp_lines(kind, ql)
